@@ -93,7 +93,9 @@ func (vp *validPeers) set(peerSetID PeerSetID, peers []*ServerIdentity) {
 	newPeers := make(peerSet)
 
 	for _, peer := range peers {
-		newPeers[peer.ID] = struct{}{}
+		// The identifier is derived from the public key: the deprecated ID
+		// field is whatever the creator of the structure wrote into it.
+		newPeers[peer.GetID()] = struct{}{}
 	}
 
 	vp.lock.Lock()
@@ -134,9 +136,12 @@ func (vp *validPeers) isValid(peer *ServerIdentity) bool {
 		return true
 	}
 
-	// Search whether the given peer is valid in any of the peer subsets
+	// Search whether the given peer is valid in any of the peer subsets.
+	// The peer is identified by its public key, never by the ID field of the
+	// identity it sent over the wire.
+	peerID := peer.GetID()
 	for _, peers := range vp.peers {
-		_, ok := peers[peer.ID]
+		_, ok := peers[peerID]
 		if ok {
 			return true
 		}
